@@ -447,3 +447,5 @@ func calleeOf(p *syntax.Pipeline, callId string) string {
 }
 
 func (v *vdrRun) modelChecks() {}
+
+func vdrPureChecks(c *Ctx, prop string) {}
